@@ -13,6 +13,18 @@ CLAIMS = {
                     'predicate is the verifier predicate (AGREE); stale output removed unconditionally before verification and writer only '
                     'under failures > 0 (OUTFILE); stores into the input frame only under detect_in_place (INPLACE).',
             'technique': 'typestate must-pass-through walk, decision-table agreement between sibling implementations, guard-chain queries'},
+    'C03': {'text': 'the sampling loop is never left with stale results (LOOP); every character reaching the fine classifier gets a class '
+                    'whose regex contains it, over all code points and extra-letter configurations (CLASS); output-dialect classes contain '
+                    'the internal ones for Python-interpreted dialects (DIALECT); escape discipline (ESC); escaped_bracket denotes exactly '
+                    'its input set on all special-character combinations (BRACKET); plusify only widens (WIDEN).',
+            'technique': 'typestate walk, character-set algebra over all Unicode code points, abstract interpretation of the pure string helpers on enumerated inputs + regex parse-tree inspection'},
+    'C13': {'text': 'every stored expression comes from vrle2re/rle2re whose returns pass the ^...$ wrapper (ANCHOR); the tag flag is only '
+                    'forwarded or selects group(X) vs X (TAG); quantifier rendering parses and admits min..max (QUANT); escape and '
+                    'bracket construction (ESC, BRACKET).',
+            'technique': 'def-use/shape checks on the AST, abstract interpretation of fragment2re/escaped_bracket on enumerated inputs + regex parse-tree inspection'},
+    'C14': {'text': 'every random.* call lies inside a seeded, restored region on every call chain from the entry points (PRNG); PRNGState is '
+                    'followed at once by try/finally restore (RESTORE); set-to-sequence conversions are sorted (ORDER); memo key complete (MEMO).',
+            'technique': 'reverse call-graph chain enumeration with region membership, statement-adjacency check, def-use'},
     'C05': {'text': IEF + ' assertDataFramesEqual/assertDataFrameCorrect/assertOnDiskDataFrameCorrect/check_dataframe.',
             'technique': 'call-graph reachability + definite-assignment walk + arity check (AST)'},
     'C07': {'text': 'discovery thresholds admit exactly the documented sets (THRESH); the discovered sign class is the strongest that holds '
